@@ -111,6 +111,10 @@ impl ROp {
 fn is_zero_u16(x: &u16) -> bool {
     *x == 0
 }
+fn is_false(x: &bool) -> bool {
+    !*x
+}
+const SUBDIR: &str = "sub";
 
 #[derive(Clone, Debug, Serialize, Deserialize, PartialEq)]
 pub enum Layout {
@@ -129,6 +133,13 @@ pub enum Layout {
         settle: bool,
         #[serde(default, skip_serializing_if = "is_zero_u16")]
         block: u16,
+        /// the stand-off files live in the subdirectory `sub/` of the store's directory, and that directory is
+        /// removed (with everything in it) once the store has been loaded (and settled): a serialisation that
+        /// has to rewrite a member finds no directory to put the file into. On the unchanged tree it fails, alone
+        /// as well as next to other readers; what is compared is, as always, alone against together (`block` is
+        /// ignored then).
+        #[serde(default, skip_serializing_if = "is_false")]
+        subdir: bool,
     },
     /// like Standoff, then saved as CBOR and loaded again (members keep their file names, the serialisation
     /// mode cells start as NoInclude)
@@ -601,7 +612,7 @@ fn ordered_doc(doc: &serde_json::Value) -> String {
 }
 
 /// move the members selected by `mask` into @include files (as c05's `externalise`, but into memory)
-fn externalise(doc: &mut serde_json::Value, mask: u16, json_resources: bool, files: &mut Vec<(String, String)>) -> (usize, usize) {
+fn externalise(doc: &mut serde_json::Value, mask: u16, json_resources: bool, prefix: &str, files: &mut Vec<(String, String)>) -> (usize, usize) {
     let mut moved = (0, 0);
     if let Some(arr) = doc.get_mut("resources").and_then(|r| r.as_array_mut()) {
         for (i, r) in arr.iter_mut().enumerate() {
@@ -612,11 +623,11 @@ fn externalise(doc: &mut serde_json::Value, mask: u16, json_resources: bool, fil
             let id = r.get("@id").cloned();
             let text = r.get("text").and_then(|t| t.as_str()).unwrap_or("").to_string();
             let fname = if json_resources {
-                let fname = format!("r{}.resource.stam.json", i);
+                let fname = format!("{}r{}.resource.stam.json", prefix, i);
                 files.push((fname.clone(), ordered_doc(r)));
                 fname
             } else {
-                let fname = format!("r{}.txt", i);
+                let fname = format!("{}r{}.txt", prefix, i);
                 files.push((fname.clone(), text));
                 fname
             };
@@ -633,7 +644,7 @@ fn externalise(doc: &mut serde_json::Value, mask: u16, json_resources: bool, fil
             }
             moved.1 += 1;
             let id = s.get("@id").cloned();
-            let fname = format!("s{}.dataset.stam.json", i);
+            let fname = format!("{}s{}.dataset.stam.json", prefix, i);
             files.push((fname.clone(), ordered_doc(s)));
             *s = serde_json::json!({"@type": "AnnotationDataSet", "@include": fname});
             if let Some(id) = id {
@@ -705,7 +716,12 @@ fn prepare(case: &Case, out: &mut Outcome) -> Option<Prepared> {
                 return None;
             };
             let mut members = vec![];
-            let moved = externalise(&mut doc, *mask, *json_resources, &mut members);
+            let subdir = matches!(&case.layout, Layout::Standoff { subdir: true, .. });
+            let prefix = if subdir { format!("{}/", SUBDIR) } else { String::new() };
+            let moved = externalise(&mut doc, *mask, *json_resources, &prefix, &mut members);
+            if subdir {
+                out.label("layout.standoff_subdir_removed");
+            }
             files.push((MAIN.to_string(), ordered_doc(&doc)));
             files.extend(members);
             match &case.layout {
@@ -722,7 +738,7 @@ fn prepare(case: &Case, out: &mut Outcome) -> Option<Prepared> {
             if moved == (0, 0) {
                 out.label("standoff.no_member_selected");
             }
-            if let Layout::Standoff { block, settle, .. } = &case.layout {
+            if let Layout::Standoff { block, settle, subdir: false, .. } = &case.layout {
                 // the files are called r<i>.txt / r<i>.resource.stam.json / s<i>.dataset.stam.json (see externalise)
                 for (name, _) in files.iter().skip(1) {
                     let digits: String = name[1..].chars().take_while(|c| c.is_ascii_digit()).collect();
@@ -782,6 +798,10 @@ fn instantiate(p: &Prepared) -> Result<Instance, String> {
             }
         }
         Layout::Standoff { .. } | Layout::Cbor { .. } => {
+            let subdir = matches!(&p.layout, Layout::Standoff { subdir: true, .. });
+            if subdir {
+                std::fs::create_dir_all(dir.path(SUBDIR)).map_err(|e| format!("mkdir {}: {}", SUBDIR, e))?;
+            }
             for (name, content) in &p.files {
                 std::fs::write(dir.path(name), content).map_err(|e| format!("write {}: {}", name, e))?;
             }
@@ -820,6 +840,10 @@ fn instantiate(p: &Prepared) -> Result<Instance, String> {
             }
         }
     };
+    // from now on the directory of the stand-off files does not exist
+    if matches!(&p.layout, Layout::Standoff { subdir: true, .. }) {
+        std::fs::remove_dir_all(dir.path(SUBDIR)).map_err(|e| format!("removing {}: {}", SUBDIR, e))?;
+    }
     // from now on the selected stand-off files cannot be written: each is a directory of the same name
     for name in &p.blocked {
         let f = dir.path(name);
@@ -1634,15 +1658,15 @@ fn scenarios(tier: Tier) -> Vec<Case> {
     }
     let layouts = vec![
         // 0: the dataset in a stand-off file and still flagged as changed: serialising it writes the file
-        Layout::Standoff { mask: 0x0100, json_resources: true, settle: false, block: 0 },
+        Layout::Standoff { mask: 0x0100, json_resources: true, settle: false, block: 0, subdir: false },
         // 1: resource (JSON) and dataset stand-off, nothing flagged as changed
-        Layout::Standoff { mask: 0x0101, json_resources: true, settle: true, block: 0 },
+        Layout::Standoff { mask: 0x0101, json_resources: true, settle: true, block: 0, subdir: false },
         // 2: the resource in a stand-off JSON file and flagged as changed
-        Layout::Standoff { mask: 0x0001, json_resources: true, settle: false, block: 0 },
+        Layout::Standoff { mask: 0x0001, json_resources: true, settle: false, block: 0, subdir: false },
         // 3: resource and dataset stand-off, loaded from CBOR
         Layout::Cbor { mask: 0x0101, json_resources: true },
         // 4: resource as plain text and dataset stand-off, settled
-        Layout::Standoff { mask: 0x0101, json_resources: false, settle: true, block: 0 },
+        Layout::Standoff { mask: 0x0101, json_resources: false, settle: true, block: 0, subdir: false },
         // 5: nothing stand-off
         Layout::Inline,
     ];
@@ -1662,7 +1686,7 @@ fn scenarios(tier: Tier) -> Vec<Case> {
         }
     }
     // three readers (layouts in which every operation has at most two yield points)
-    let dataset_settled = Layout::Standoff { mask: 0x0100, json_resources: true, settle: true, block: 0 };
+    let dataset_settled = Layout::Standoff { mask: 0x0100, json_resources: true, settle: true, block: 0, subdir: false };
     let triples: Vec<[usize; 3]> = match tier {
         Tier::Quick => vec![[0, 1, 3], [1, 1, 2], [2, 3, 4]],
         Tier::Thorough => vec![[0, 1, 3], [1, 1, 2], [2, 3, 4], [0, 0, 1], [0, 2, 4], [1, 3, 4], [0, 0, 0], [1, 1, 1], [0, 5, 7], [1, 5, 6]],
@@ -1691,8 +1715,54 @@ fn scenarios(tier: Tier) -> Vec<Case> {
         }
     }
     v.extend(blocked_scenarios(tier, false));
+    v.extend(subdir_scenarios(tier));
     v.extend(parallel_scenarios());
     v.extend(search_scenarios(tier));
+    v
+}
+
+/// stand-off members that are flagged as changed while the directory of their files is gone: whatever a
+/// serialisation that has to rewrite such a member does alone (fail, on the unchanged tree), it has to do next to
+/// other readers as well. The window between "is the directory there" and "put the file into it" holds no yield
+/// point, so every scenario is followed by free-running runs (best effort) in which the readers start together.
+fn subdir_scenarios(tier: Tier) -> Vec<Case> {
+    let st = Cfg::Store { compact: true };
+    let ops: Vec<ROp> = vec![
+        ROp::StoreJson(st.clone()),                     // 0
+        ROp::DatasetJson { set: 0, cfg: st.clone() },   // 1
+        ROp::ResourceJson { res: 0, cfg: st.clone() },  // 2
+        ROp::StoreFile(st.clone()),                     // 3
+        ROp::StoreSave,                                 // 4
+    ];
+    let dataset = Layout::Standoff { mask: 0x0100, json_resources: true, settle: false, block: 0, subdir: true };
+    let resource = Layout::Standoff { mask: 0x0001, json_resources: true, settle: false, block: 0, subdir: true };
+    let both = Layout::Standoff { mask: 0x0101, json_resources: true, settle: false, block: 0, subdir: true };
+    let settled = Layout::Standoff { mask: 0x0101, json_resources: true, settle: true, block: 0, subdir: true };
+    let mk = |layout: &Layout, scripts: Vec<Vec<usize>>| Case {
+        hist: small_history(),
+        layout: layout.clone(),
+        scripts: scripts.iter().map(|s| s.iter().map(|i| ops[*i].clone()).collect()).collect(),
+        schedule: vec![],
+        stress: 4,
+    };
+    let mut v = vec![
+        mk(&dataset, vec![vec![0], vec![0]]),
+        mk(&dataset, vec![vec![0], vec![0], vec![0]]),
+        mk(&dataset, vec![vec![1], vec![1], vec![1]]),
+        mk(&dataset, vec![vec![0], vec![1], vec![3]]),
+        mk(&resource, vec![vec![0], vec![0], vec![0]]),
+        mk(&resource, vec![vec![2], vec![2], vec![0]]),
+        mk(&both, vec![vec![0], vec![0], vec![0]]),
+        mk(&both, vec![vec![1], vec![2], vec![0]]),
+        mk(&settled, vec![vec![0], vec![0]]),
+    ];
+    if tier == Tier::Thorough {
+        v.push(mk(&dataset, vec![vec![4], vec![4], vec![4]]));
+        v.push(mk(&dataset, vec![vec![3], vec![3], vec![3]]));
+        v.push(mk(&both, vec![vec![0, 0], vec![0, 0], vec![0, 0]]));
+        v.push(mk(&both, vec![vec![4], vec![0], vec![3]]));
+        v.push(mk(&resource, vec![vec![3], vec![2], vec![4]]));
+    }
     v
 }
 
@@ -1709,11 +1779,11 @@ fn blocked_scenarios(tier: Tier, sampled: bool) -> Vec<Case> {
         ROp::StoreSave,                                 // 5
         ROp::DatasetFile { set: 0, cfg: st.clone() },   // 6
     ];
-    let dataset = Layout::Standoff { mask: 0x0100, json_resources: true, settle: false, block: 0x0100 };
-    let resource = Layout::Standoff { mask: 0x0001, json_resources: true, settle: false, block: 0x0001 };
-    let both = Layout::Standoff { mask: 0x0101, json_resources: true, settle: false, block: 0x0101 };
-    let one_of_two = Layout::Standoff { mask: 0x0101, json_resources: true, settle: false, block: 0x0100 };
-    let settled = Layout::Standoff { mask: 0x0101, json_resources: true, settle: true, block: 0x0101 };
+    let dataset = Layout::Standoff { mask: 0x0100, json_resources: true, settle: false, block: 0x0100, subdir: false };
+    let resource = Layout::Standoff { mask: 0x0001, json_resources: true, settle: false, block: 0x0001, subdir: false };
+    let both = Layout::Standoff { mask: 0x0101, json_resources: true, settle: false, block: 0x0101, subdir: false };
+    let one_of_two = Layout::Standoff { mask: 0x0101, json_resources: true, settle: false, block: 0x0100, subdir: false };
+    let settled = Layout::Standoff { mask: 0x0101, json_resources: true, settle: true, block: 0x0101, subdir: false };
     let mk = |layout: &Layout, scripts: Vec<Vec<usize>>| Case {
         hist: small_history(),
         layout: layout.clone(),
@@ -1883,8 +1953,8 @@ fn search_scenarios(tier: Tier) -> Vec<Case> {
     let variants: u8 = tier.pick(4, 12);
     for variant in 0..variants {
         let layout = match variant % 4 {
-            1 => Layout::Standoff { mask: 0x0001, json_resources: false, settle: true, block: 0 },
-            3 => Layout::Standoff { mask: 0x0001, json_resources: true, settle: true, block: 0 },
+            1 => Layout::Standoff { mask: 0x0001, json_resources: false, settle: true, block: 0, subdir: false },
+            3 => Layout::Standoff { mask: 0x0001, json_resources: true, settle: true, block: 0, subdir: false },
             _ => Layout::Inline,
         };
         let sl = |needle: u8| ROp::SearchLoop { res: 0, needle, reps };
@@ -1958,7 +2028,7 @@ fn layout_strategy() -> BoxedStrategy<Layout> {
         11 => (mask.clone(), any::<bool>(), any::<bool>(), block, proptest::bool::weighted(0.15)).prop_map(|(mask, json_resources, settle, block, settle_blocked)| {
             // a blocked member matters while it is flagged as changed: mostly not settled then
             let settle = if block == 0 { settle } else { settle_blocked };
-            Layout::Standoff { mask, json_resources, settle, block }
+            Layout::Standoff { mask, json_resources, settle, block, subdir: false }
         }),
         2 => (mask, any::<bool>()).prop_map(|(mask, json_resources)| Layout::Cbor { mask, json_resources }),
     ]
@@ -2083,7 +2153,7 @@ impl Property for C20 {
         ];
         let search_layout = prop_oneof![
             3 => Just(Layout::Inline),
-            1 => any::<bool>().prop_map(|json_resources| Layout::Standoff { mask: 0x0001, json_resources, settle: true, block: 0 }),
+            1 => any::<bool>().prop_map(|json_resources| Layout::Standoff { mask: 0x0001, json_resources, settle: true, block: 0, subdir: false }),
             1 => any::<bool>().prop_map(|json_resources| Layout::Cbor { mask: 0x0001, json_resources }),
         ];
         let search = (
